@@ -27,7 +27,7 @@ Open Scope list_scope.'''
 VALS = [0.0, 1.5, -1.0]
 EXTRA_VALS = [5e-324, 1.7976931348623157e308, -0.0, float('inf'), -5e-324, 2.5, 1e-300, 3.0, 0.1, -2.0, 123456789.125]
 KEYSETS = [['a', 'b', 'c'], ['HP:0000001', 'HP:0000010', 'HP:0000002'], ['é', 'e', 'z', 'ü'], ['a,b', 'c"d', " a", "b'"],
-           ['', 'A', 'a'], ['#b', 'a', '#'], ['10', '9', '1']]
+           ['', 'A', 'a'], ['#b', 'a', '#'], ['10', '9', '1'], ['a\x0bb', 'c\x85d', 'e\u2028f', 'g\x1ch', 'i\x0cj']]
 
 
 def crb(rb):
@@ -219,7 +219,8 @@ def csv_texts(rng, n):
 
 
 def gen_meta(rng, ok):
-    good = 'abcXYZ019 -_.:/é#,"\''
+    # incl. the characters that str.splitlines() - but no text file and no csv reader - takes for line boundaries
+    good = 'abcXYZ019 -_.:/é#,"\'' + '\x0b\x0c\x1c\x1e\x85\u2028\u2029'
     n = rng.randint(0 if not ok else 1, 4)
     m = []
     seen = set()
@@ -260,7 +261,7 @@ def run(chk):
     chk.exhaustive = True
     chk.rule = ('ALL histories of length <= 2 (quick) / <= 3 (thorough) over 27 operations (keys {a,b,c} in both orders incl. self pairs x values {0, 1.5, -1}) plus sampled '
                 'length-3/4 histories, with a full read-back after EVERY step (get for all ordered key pairs, len, sorted items) compared with the model; random '
-                'histories up to length 60 over 7 key alphabets (CURIEs, non-ASCII, commas/quotes, empty key, #-keys) and tiny/huge/zero/-0.0/inf/negative values, '
+                'histories up to length 60 over 8 key alphabets (CURIEs, non-ASCII, commas/quotes, empty key, #-keys, the line boundaries of str.splitlines that no file iterator honours: VT FF FS RS NEL LS PS) and tiny/huge/zero/-0.0/inf/negative values, '
                 'each followed by a .csv and .csv.gz round trip evaluated on the implementation (similarities by float.hex, metadata); metadata_to_str on random '
                 'maps incl. ; = LF CR (exact string and header line vs the model), metadata_from_str on well- and ill-formed strings; csv.writer rows and csv.reader lines over an alphabet with commas, quotes, blanks, #, non-ASCII compared with the row-codec model, and the data lines to_csv writes compared with write_row [a; b; repr(v)]; the WHOLE file to_csv writes compared with to_csv_text; from_csv on 220 (thorough: 900) whole files - 65% mostly-valid '
                 '(column permutations, extra column, quoted / multi-line / #-leading cells, blank lines, LF / CR LF / CR endings, missing last terminator), 35% malformed (missing or wrong columns, short / long rows, bad / negative numbers, '
